@@ -30,6 +30,7 @@ const (
 
 type HarnessDef struct {
 	Prop     string
+	Props    []string
 	Func     string
 	File     string // harness source file
 	RelDir   string // e.g. src/util/mathutil
@@ -81,7 +82,10 @@ func parseHarnessFile(path string) ([]*HarnessDef, string, bool, error) {
 			}
 			switch parts[0] {
 			case "prop":
-				hd.Prop = arg
+				hd.Props = strings.Fields(arg)
+				if len(hd.Props) > 0 {
+					hd.Prop = hd.Props[0]
+				}
 			case "tier":
 				hd.Tier = arg
 			case "unwind":
@@ -139,6 +143,15 @@ func parseHarnessFile(path string) ([]*HarnessDef, string, bool, error) {
 	return out, f.Name.Name, shared, nil
 }
 
+func (d *HarnessDef) hasProp(p string) bool {
+	for _, x := range d.Props {
+		if x == p {
+			return true
+		}
+	}
+	return false
+}
+
 type fileInfo struct {
 	path, relDir, pkgName string
 	shared                bool
@@ -180,6 +193,8 @@ func main() {
 	switch os.Args[1] {
 	case "check":
 		os.Exit(cmdCheck(os.Args[2:]))
+	case "replay":
+		os.Exit(cmdReplay(os.Args[2:]))
 	case "list":
 		files, err := scanHarnesses()
 		if err != nil {
@@ -188,7 +203,7 @@ func main() {
 		}
 		for _, f := range files {
 			for _, d := range f.defs {
-				fmt.Printf("%s %s %s tier=%s\n", d.Prop, d.Func, d.RelDir, d.Tier)
+				fmt.Printf("%s %s %s tier=%s\n", strings.Join(d.Props, ","), d.Func, d.RelDir, d.Tier)
 			}
 		}
 	default:
@@ -255,64 +270,13 @@ func cmdCheck(args []string) int {
 		fmt.Fprintf(os.Stderr, "no harnesses for property %s (tier %s)\n", prop, *tier)
 		return 2
 	}
-	// overlay: harness files of this property + shared files in the same packages + runtime
-	overlay := map[string][]byte{}
-	nativeOverlay := map[string]string{}
 	scratch, err := os.MkdirTemp("", "gosx-"+prop+"-")
 	if err != nil {
 		fmt.Fprintln(os.Stderr, err)
 		return 2
 	}
 	defer os.RemoveAll(scratch)
-	rtTmpl, _ := os.ReadFile(filepath.Join(verifDir, "harness/rt/zz_vp_rt.go.tmpl"))
-	testTmpl, _ := os.ReadFile(filepath.Join(verifDir, "harness/rt/zz_vp_replay_test.go.tmpl"))
-	pkgNames := map[string]string{}
-	for _, f := range files {
-		if !pkgDirs[f.relDir] {
-			continue
-		}
-		use := f.shared
-		for _, d := range f.defs {
-			if d.Prop == prop {
-				use = true
-			}
-		}
-		if !use {
-			continue
-		}
-		src, _ := os.ReadFile(f.path)
-		virt := filepath.Join(repoDir, f.relDir, "zz_vp_"+filepath.Base(f.path))
-		overlay[virt] = src
-		nativeOverlay[virt] = f.path
-		pkgNames[f.relDir] = f.pkgName
-	}
-	var patterns []string
-	for dir := range pkgDirs {
-		patterns = append(patterns, "./"+dir)
-		rt := strings.Replace(string(rtTmpl), "package PKGNAME", "package "+pkgNames[dir], 1)
-		if *tier == "thorough" {
-			rt += "\nfunc vpThorough() bool { return true }\n"
-		} else {
-			rt += "\nfunc vpThorough() bool { return false }\n"
-		}
-		virt := filepath.Join(repoDir, dir, "zz_vp_rt.go")
-		overlay[virt] = []byte(rt)
-		real := filepath.Join(scratch, strings.ReplaceAll(dir, "/", "_")+"_rt.go")
-		os.WriteFile(real, []byte(rt), 0644)
-		nativeOverlay[virt] = real
-		// test driver
-		var table strings.Builder
-		for _, d := range defs {
-			if d.RelDir == dir {
-				fmt.Fprintf(&table, "\t%q: %s,\n", d.Func, d.Func)
-			}
-		}
-		tst := strings.Replace(string(testTmpl), "package PKGNAME", "package "+pkgNames[dir], 1)
-		tst = strings.Replace(tst, "\t//HARNESS_TABLE\n", table.String(), 1)
-		realT := filepath.Join(scratch, strings.ReplaceAll(dir, "/", "_")+"_replay_test.go")
-		os.WriteFile(realT, []byte(tst), 0644)
-		nativeOverlay[filepath.Join(repoDir, dir, "zz_vp_replay_test.go")] = realT
-	}
+	overlay, nativeOverlay, patterns := prepareOverlay(files, prop, defs, pkgDirs, *tier, scratch)
 	sort.Strings(patterns)
 
 	eng, err := sx.Load(repoDir, patterns, overlay)
@@ -356,6 +320,139 @@ func cmdCheck(args []string) int {
 	}
 	code := rep.finish(time.Since(t0), eng, !*noEvidence)
 	return code
+}
+
+// prepareOverlay builds the go/packages overlay (virtual files under /repo) and
+// the matching go test -overlay map for the harness files of one property.
+func prepareOverlay(files []fileInfo, prop string, defs []*HarnessDef, pkgDirs map[string]bool, tier, scratch string) (map[string][]byte, map[string]string, []string) {
+	overlay := map[string][]byte{}
+	nativeOverlay := map[string]string{}
+	rtTmpl, _ := os.ReadFile(filepath.Join(verifDir, "harness/rt/zz_vp_rt.go.tmpl"))
+	testTmpl, _ := os.ReadFile(filepath.Join(verifDir, "harness/rt/zz_vp_replay_test.go.tmpl"))
+	pkgNames := map[string]string{}
+	for _, f := range files {
+		if !pkgDirs[f.relDir] {
+			continue
+		}
+		use := f.shared
+		for _, d := range f.defs {
+			if d.hasProp(prop) {
+				use = true
+			}
+		}
+		if !use {
+			continue
+		}
+		src, _ := os.ReadFile(f.path)
+		virt := filepath.Join(repoDir, f.relDir, "zz_vp_"+filepath.Base(f.path))
+		overlay[virt] = src
+		nativeOverlay[virt] = f.path
+		pkgNames[f.relDir] = f.pkgName
+	}
+	var patterns []string
+	for dir := range pkgDirs {
+		patterns = append(patterns, "./"+dir)
+		rt := strings.Replace(string(rtTmpl), "package PKGNAME", "package "+pkgNames[dir], 1)
+		if tier == "thorough" {
+			rt += "\nfunc vpThorough() bool { return true }\n"
+		} else {
+			rt += "\nfunc vpThorough() bool { return false }\n"
+		}
+		virt := filepath.Join(repoDir, dir, "zz_vp_rt.go")
+		overlay[virt] = []byte(rt)
+		real := filepath.Join(scratch, strings.ReplaceAll(dir, "/", "_")+"_rt.go")
+		os.WriteFile(real, []byte(rt), 0644)
+		nativeOverlay[virt] = real
+		// test driver
+		var table strings.Builder
+		for _, d := range defs {
+			if d.RelDir == dir && d.NoReplay == "" {
+				fmt.Fprintf(&table, "\t%q: %s,\n", d.Func, d.Func)
+			}
+		}
+		tst := strings.Replace(string(testTmpl), "package PKGNAME", "package "+pkgNames[dir], 1)
+		tst = strings.Replace(tst, "\t//HARNESS_TABLE\n", table.String(), 1)
+		realT := filepath.Join(scratch, strings.ReplaceAll(dir, "/", "_")+"_replay_test.go")
+		os.WriteFile(realT, []byte(tst), 0644)
+		nativeOverlay[filepath.Join(repoDir, dir, "zz_vp_replay_test.go")] = realT
+	}
+	return overlay, nativeOverlay, patterns
+}
+
+// cmdReplay re-runs a recorded counterexample against the real compiled code.
+// Exit 1 (with a VIOLATION line) if it reproduces, 0 if it does not, 2 if it
+// cannot be replayed natively (harness uses abstractions).
+func cmdReplay(args []string) int {
+	if len(args) < 1 {
+		fmt.Fprintln(os.Stderr, "usage: gosx replay <replay.json>")
+		return 2
+	}
+	data, err := os.ReadFile(args[0])
+	if err != nil {
+		fmt.Fprintln(os.Stderr, err)
+		return 2
+	}
+	var c candidate
+	if err := json.Unmarshal(data, &c); err != nil {
+		fmt.Fprintln(os.Stderr, "bad replay file:", err)
+		return 2
+	}
+	files, err := scanHarnesses()
+	if err != nil {
+		fmt.Fprintln(os.Stderr, err)
+		return 2
+	}
+	var def *HarnessDef
+	for _, f := range files {
+		for _, d := range f.defs {
+			if d.Func == c.Harness {
+				def = d
+			}
+		}
+	}
+	if def == nil {
+		fmt.Fprintln(os.Stderr, "harness not found:", c.Harness)
+		return 2
+	}
+	fmt.Printf("replay: property=%s harness=%s assertion=%s inputs=%v\n", def.Prop, c.Harness, c.Label, c.Vals)
+	if def.NoReplay != "" || c.Vals == nil {
+		fmt.Printf("this counterexample is model-level (%s); re-run the check to re-derive it: gosx check %s --only %s\n", def.NoReplay, def.Prop, strings.TrimPrefix(c.Harness, "vpH_"))
+		return 2
+	}
+	scratch, err := os.MkdirTemp("", "gosx-replay-")
+	if err != nil {
+		return 2
+	}
+	defer os.RemoveAll(scratch)
+	_, nativeOverlay, _ := prepareOverlay(files, def.Prop, []*HarnessDef{def}, map[string]bool{def.RelDir: true}, "quick", scratch)
+	ovPath := filepath.Join(scratch, "overlay.json")
+	writeJSON(ovPath, struct{ Replace map[string]string }{nativeOverlay})
+	in := filepath.Join(scratch, "in.json")
+	out := filepath.Join(scratch, "out.json")
+	writeJSON(in, []map[string]interface{}{{"ID": 1, "Harness": c.Harness, "Vals": c.Vals}})
+	txt, _ := runCmd(repoDir, []string{"GOFLAGS=-mod=vendor", "GOPROXY=off", "GOTOOLCHAIN=local", "VP_REPLAY_IN=" + in, "VP_REPLAY_OUT=" + out},
+		"timeout", "900", "go", "test", "-vet=off", "-count=1", "-run", "^TestVPReplay$", "-overlay", ovPath, "./"+def.RelDir+"/")
+	res, rerr := os.ReadFile(out)
+	if rerr != nil {
+		fmt.Println("native replay did not run:\n" + txt)
+		return 2
+	}
+	var outs []struct {
+		ID      int
+		Outcome string
+	}
+	json.Unmarshal(res, &outs)
+	if len(outs) != 1 {
+		return 2
+	}
+	fmt.Println("native outcome:", outs[0].Outcome)
+	want := "assert:" + c.Label
+	if (c.Kind == "assert" && outs[0].Outcome == want) || (c.Kind == "panic" && strings.HasPrefix(outs[0].Outcome, "panic:")) {
+		fmt.Printf("VIOLATION property=%s replay=%s\n", def.Prop, args[0])
+		return 1
+	}
+	fmt.Println("not reproduced on the current tree")
+	return 0
 }
 
 func runCmd(dir string, env []string, name string, args ...string) (string, error) {
